@@ -38,7 +38,7 @@ func mathFn(name string, xs []float64) float64 {
 // sortSlice models sort.Slice / sort.SliceStable as a stable insertion sort driven by the
 // user's less closure. The slice length must be concrete; every less() decision that is
 // symbolic forks (the permutation is path-specific).
-func (e *Exec) sortSlice(st *State, args []Value, callSite string) []Outcome {
+func (e *Exec) sortSlice(st *State, args []Value, callSite ssa.Instruction) []Outcome {
 	iv := args[0].(*IfaceV)
 	sl, ok := iv.V.(*SliceV)
 	if !ok {
